@@ -41,6 +41,9 @@ CHECKS = {
  "C17": ("model_checking", "TLC model checking of Lzma2.tla (FramingRejected, Verdict) + replay of every chunk sequence ending in one framing fault",
          "Each framing fault of the property statement is an action or a parameter of the chunk model; TLC checks that the transcribed decoder ends in an error for all of them at every chunk position of the bounded model and the harness replays each one into lzma2_decompress, the raw decoder and a one-block .xz.",
          "5 C17"),
+ "C12": ("model_checking", "TLC model checking of IoFaults.tla + exhaustive fault enumeration per input on every entry point, call logs validated by TLC against the I/O contract",
+         "IoFaults.tla states the contract over individual sink/source calls (error iff a call failed, accepted bytes always a prefix, complete and flushed on Ok) and is model-checked against a reference write_all pipeline under every fault script; on the real code every fault position (each write as Err and as Ok(0), each flush, each read) of every sample input is enumerated for all decoders, the raw LZMA2 decoder, Stream and all encoder variants, with short-write patterns; the recorded call logs are validated by TLC with the contract as invariant.",
+         "5 C12"),
 }
 NOT_YET = {}
 props = [json.loads(l) for l in open(os.path.join(V, "properties.jsonl"))]
